@@ -1,9 +1,14 @@
 SPECIFICATION PSpec
 CONSTANTS
-  RunTypes = {"r_arg_base", "r_usa_nw", "r_dji_res", "r_wor", "r_bad"}
+  RunTypes = {"r_arg_base", "r_usa_nw", "r_dji_res", "r_wor", "r_bad", "r_alb_kf", "r_arg_kf", "r_arg_herd"}
   Failing = {"r_bad"}
+  Patched = {"r_alb_kf"}
+  Overriding = {"r_arg_herd"}
+  CountryOf <- CountryTab
+  OptOf <- OptTab
+  TablePos <- PosTab
   MaxLen = 3
-  ReadsBeforeSet = FALSE
+  Broken = "none"
   Emit = TRUE
   Countries <- C4
   Pop <- PopTab
@@ -12,3 +17,4 @@ CONSTANTS
 CHECK_DEADLOCK FALSE
 INVARIANT HistoryIndependent
 INVARIANT ResultDependsOnlyOnRun
+INVARIANT SurvivorsUntouched
